@@ -306,6 +306,14 @@ pub fn judge_history(steps: &[Step]) -> Verdict {
                 let t0 = now_secs() as i128;
                 let r = match catch(|| compile(&x, &opts).map(|c| c.scheme("/dev/x"))) {
                     Ok(r) => r,
+                    // a tree with an option node is outside compile's domain (parse never returns one):
+                    // whatever that call does, the calls after it must be unaffected
+                    Err(_) if e.leaves().iter().any(|l| matches!(l, E::G(_))) => {
+                        if e.leaves().iter().any(|l| matches!(l, E::T(Tst::Time(..)))) {
+                            failed_with_time_before = true;
+                        }
+                        continue;
+                    }
                     Err(p) => return Verdict::Fail(format!("compile panicked at step {i}: {p}")),
                 };
                 let t1 = now_secs() as i128;
@@ -395,7 +403,9 @@ fn history_json(steps: &[Step]) -> Value {
 fn history_strategy() -> BoxedStrategy<Vec<Step>> {
     let time_test = || (gen::which(), gen::cmp(), 0u64..100, gen::tunit()).prop_map(|(w, c, n, u)| E::T(Tst::Time(w, c, n, u)));
     let ok_with_time = (time_test(), gen::supported_leaf()).prop_map(|(t, l)| E::and(t, l));
-    let failing_after_time = (time_test(), gen::unsupported_test()).prop_map(|(t, u)| E::and(t, E::T(u)));
+    // (a compilation that ends in an error value, or - for a hand-built tree with an option node,
+    // which compile does not expect - in a panic that the caller catches)
+    let failing_after_time = prop_oneof![3 => (time_test(), gen::unsupported_test()).prop_map(|(t, u)| E::and(t, E::T(u))), 1 => time_test().prop_map(|t| E::and(t, E::G(Glob::Depth)))];
     let any = prop_oneof![2 => ok_with_time.clone(), 1 => failing_after_time.clone(), 1 => crate::checks::c12::full_leaf()];
     (proptest::collection::vec(any.clone(), 1..4), prop::bool::weighted(0.7), failing_after_time, proptest::collection::vec(prop_oneof![3 => ok_with_time, 1 => any], 2..5))
         .prop_map(|(pre, end_with_failure, failing, post)| {
@@ -453,6 +463,11 @@ pub fn run(ctx: &Ctx) -> Report {
             E::and(E::or(E::or(nm("x*"), nm("x?")), E::or(nm("x"), inm("x"))), E::and(f("x"), f0("x"))),
             E::or(E::A(Act::FPrintf("a".into(), vec![FEl::F(Fld::Name)])), E::or(f("a"), E::A(Act::FPrintf("./a".into(), vec![FEl::F(Fld::Name)])))),
             E::and(E::or(E::T(Tst::Pool("ssd".into())), E::T(Tst::Pool("SSD".into()))), E::or(E::T(Tst::Xattr("user.a".into())), E::T(Tst::Xattr("USER.A".into())))),
+            // one format that prints several attributes (and other fields) more than once
+            E::A(Act::Printf(vec![FEl::F(Fld::XAttr("owner".into())), FEl::Lit("/".into()), FEl::F(Fld::XAttr("site".into())), FEl::Lit(" ".into()), FEl::F(Fld::Name), FEl::Lit(" ".into()), FEl::F(Fld::XAttr("owner".into())), FEl::Lit("/".into()), FEl::F(Fld::XAttr("site".into())), FEl::F(Fld::XAttr("tag".into())), FEl::F(Fld::XAttr("tag".into())), FEl::E(Esc::Newline)])),
+            E::and(E::A(Act::FPrintf("o".into(), vec![FEl::F(Fld::UserId), FEl::F(Fld::GroupId), FEl::F(Fld::UserId), FEl::F(Fld::GroupId), FEl::F(Fld::Bytes), FEl::F(Fld::Bytes)])), E::A(Act::Printf(vec![FEl::F(Fld::XAttr("b".into())), FEl::F(Fld::XAttr("a".into())), FEl::F(Fld::XAttr("b".into())), FEl::F(Fld::XAttr("a".into()))]))),
+            // many leaves of every kind, several of them twice
+            E::and(E::or(E::or(E::T(Tst::Size(Cmp::Gt, 1, SUnit::K)), E::T(Tst::Size(Cmp::Gt, 1024, SUnit::C))), E::or(E::T(Tst::Uid(Cmp::Eq, 1)), E::T(Tst::Uid(Cmp::Eq, 1)))), E::and(E::or(E::T(Tst::Type(vec![FT::F, FT::D])), E::T(Tst::Type(vec![FT::D, FT::F]))), E::or(E::T(Tst::Perm(PKind::Any, 0o111)), E::T(Tst::Perm(PKind::Any, 0o111))))),
         ]
     };
     let rep = run_shards(twin_trees.len(), |i| {
